@@ -295,6 +295,11 @@ Fixpoint run (c : cfg) (st : nstate) (tr : list (Z * input)) : nstate :=
   | (now, i) :: r => run c (fst (step c now st i)) r
   end.
 
+(** time literals of the recorded traces are written [T6 k] / [T3 k] (k ms / k us): Coq's parser
+    is slow on long numerals *)
+Definition T6 (x : Z) : Z := x * 1000000.
+Definition T3 (x : Z) : Z := x * 1000.
+
 (** ** comparison with the implementation's observations *)
 Definition optZ_eqb := option_eqb Z.eqb.
 Definition upd_eqb (a b : upd) : bool :=
